@@ -28,6 +28,7 @@ class Radio:
         self.a = {0x0A: bytearray(b"\xe7" * 5), 0x0B: bytearray(b"\xc2" * 5), 0x10: bytearray(b"\xe7" * 5)}
         self.tx_fifo = []   # dicts: kind ("tx"|"ack"), data, pid / pipe, noack
         self.rx_fifo = []   # (pipe, bytes)
+        self.rx_discards = []   # (time, n) FLUSH_RX commands that threw away unread payloads
         self.flags = 0      # RX_DR | TX_DS | MAX_RT
         self.ce = False
         self.pid = 0
@@ -207,6 +208,10 @@ class Radio:
             self.ack_inflight.clear()
             self.tx_reuse = False
         elif cmd == 0xE2:  # FLUSH_RX
+            if self.rx_fifo:
+                # reach/diagnosis: received payloads discarded unread by the MCU
+                self.rx_discards.append((self.sim.now, len(self.rx_fifo)))
+                self.sim.count("chip_rx_flushed_unread", len(self.rx_fifo))
             self.rx_fifo.clear()
         elif cmd == 0xE3:  # REUSE_TX_PL
             self.tx_reuse = True
